@@ -597,6 +597,62 @@ func (g *gen) writeShards() error {
 	return nil
 }
 
+// text shards: the Coq model receives the very bytes the implementation received and
+// decides JSON well-formedness itself (Schema/JsonText.v); the harness's own decoding
+// (used for the term shards) is checked against the Coq parser on the same texts.
+const textLimit = 700
+const textShardSize = 300
+
+func (g *gen) writeTextShards() error {
+	var idx []int
+	for i, in := range g.cases {
+		if !in.NoCoq && len(in.Schema)+len(in.Data) <= textLimit {
+			idx = append(idx, i)
+		}
+	}
+	for s := 0; s*textShardSize < len(idx); s++ {
+		lo, hi := s*textShardSize, (s+1)*textShardSize
+		if hi > len(idx) {
+			hi = len(idx)
+		}
+		f := coqgen.NewFile("From Coq Require Import QArith.", "From GSP Require Import Schema.Json Schema.JsonText Schema.Regex Schema.Model Schema.Run.")
+		name := filepath.Join(g.cfg.OutDir, fmt.Sprintf("cases_C18_txt_%03d.v", s))
+		var cs, ps []string
+		checked := map[string]bool{}
+		for _, i := range idx[lo:hi] {
+			in := g.cases[i]
+			obs := g.obs[i]
+			if in.Stream != "normal" {
+				obs = in.Expect
+			}
+			cm := in.Mode
+			if cm == 3 {
+				cm = 1
+			}
+			cs = append(cs, fmt.Sprintf("mkt %d %d %s %s %d", i, cm, f.Str(in.Schema), f.Str(in.Data), obs))
+			g.rep.Case(name, i, in)
+			for _, text := range []string{in.Schema, in.Data} {
+				if checked[text] {
+					continue
+				}
+				checked[text] = true
+				if t, good := optTerm(f, text); good {
+					ps = append(ps, fmt.Sprintf("(%d, %s, %s)", i, f.Str(text), t))
+				}
+			}
+		}
+		f.Add("Definition cases_ : list tcase := " + coqgen.List(cs) + ".")
+		f.Add("Definition checks_ : list (int * string * option json) := " + coqgen.List(ps) + ".")
+		f.Add("Definition M := Eval vm_compute in (tmismatches cases_ ++ pmismatches checks_)%list.")
+		f.Add("Print M.")
+		if err := f.Write(name); err != nil {
+			return err
+		}
+		g.rep.Shards = append(g.rep.Shards, name)
+	}
+	return nil
+}
+
 func Run(cfg *common.Config) (*common.Report, error) {
 	rep := common.NewReport("C18")
 	rep.Correspondence = "Schema.Run.smismatches: validate_data / processor_validate_data (Schema/Model.v: compile_root + validate) vs json.Validator.ValidateData / processor.Processor.ValidateData (outcome class: valid, invalid, data syntax error, data not an object, schema error, other error, no validator)"
@@ -628,8 +684,12 @@ func Run(cfg *common.Config) (*common.Report, error) {
 	sort.Strings(kinds)
 	rep.Notes = append(rep.Notes,
 		"known-finding streams (kf-*) are compared in Coq against the verdict expected by construction, not against the implementation",
-		"patterns rejected by Go's regexp are checked on the implementation only (schema error expected)")
+		"patterns rejected by Go's regexp are checked on the implementation only (schema error expected)",
+		"cases_C18_txt_*: cases whose texts are at most 700 bytes are ALSO evaluated from the raw bytes (validate_text: the Coq model parses the JSON text itself); the harness decoding of every such text is compared with the Coq parser")
 	if err := g.writeShards(); err != nil {
+		return nil, err
+	}
+	if err := g.writeTextShards(); err != nil {
 		return nil, err
 	}
 	return rep, nil
@@ -650,6 +710,9 @@ func replay(cfg *common.Config, g *gen) (*common.Report, error) {
 	g.rep.Sample(map[string]any{"input": in, "observed": className[cls]})
 	fmt.Printf("replay: mode=%d kind=%s schema=%s data=%s -> %s (expected %s)\n", in.Mode, in.Kind, in.Schema, in.Data, className[cls], className[in.Expect])
 	if err := g.writeShards(); err != nil {
+		return nil, err
+	}
+	if err := g.writeTextShards(); err != nil {
 		return nil, err
 	}
 	return g.rep, nil
